@@ -563,7 +563,74 @@ def graph_constructions(tree):
     return []
 
 
-def emit(cli_specs, tool_tpls, gactions, gconstructions=()):
+def graph_options(tree):
+    """the `options` table of graph_args.py: graph type -> option keywords, in the order of the source"""
+    for node in tree.body:
+        if isinstance(node, ast.Assign) and len(node.targets) == 1 and isinstance(node.targets[0], ast.Name) \
+                and node.targets[0].id == "options" and isinstance(node.value, ast.Dict):
+            out = []
+            for k, v in zip(node.value.keys, node.value.values):
+                if isinstance(k, ast.Constant) and isinstance(v, (ast.List, ast.Tuple)) \
+                        and all(isinstance(x, ast.Constant) for x in v.elts):
+                    out.append((str(k.value), [str(x.value) for x in v.elts]))
+                else:
+                    return []       # outside the fragment: the table theorems over it fail
+            return out
+    return []
+
+
+def _const_str_list(node):
+    if isinstance(node, (ast.List, ast.Tuple)) and all(isinstance(x, ast.Constant) and isinstance(x.value, str)
+                                                      for x in node.elts):
+        return [x.value for x in node.elts]
+    return None
+
+
+def graph_formats(graphs_tree):
+    """`formats = supported_graph_formats()` of graph_args.py, read off graphs.py:
+    graph type -> (formats when pydot can be imported, formats when it cannot).
+    Fragment: `supported_graph_formats` returns a dict literal `{type: <Class>.supported_file_formats()}`
+    and each class method is `if has_dot_library(): return [..] else: return [..]` (or one plain `return [..]`)."""
+    per_class = {}
+    mapping = None
+    for node in graphs_tree.body:
+        if isinstance(node, ast.ClassDef):
+            for f in node.body:
+                if isinstance(f, ast.FunctionDef) and f.name == "supported_file_formats":
+                    body = [b for b in f.body if not (isinstance(b, ast.Expr) and isinstance(b.value, ast.Constant))]
+                    if len(body) == 1 and isinstance(body[0], ast.Return):
+                        l = _const_str_list(body[0].value)
+                        if l is not None:
+                            per_class[node.name] = (l, l)
+                    elif len(body) == 1 and isinstance(body[0], ast.If) and isinstance(body[0].test, ast.Call) \
+                            and isinstance(body[0].test.func, ast.Name) and body[0].test.func.id == "has_dot_library" \
+                            and len(body[0].body) == 1 and len(body[0].orelse) == 1 \
+                            and isinstance(body[0].body[0], ast.Return) and isinstance(body[0].orelse[0], ast.Return):
+                        a = _const_str_list(body[0].body[0].value)
+                        b = _const_str_list(body[0].orelse[0].value)
+                        if a is not None and b is not None:
+                            per_class[node.name] = (a, b)
+        if isinstance(node, ast.FunctionDef) and node.name == "supported_graph_formats":
+            for b in node.body:
+                if isinstance(b, ast.Return) and isinstance(b.value, ast.Dict):
+                    mapping = []
+                    for k, v in zip(b.value.keys, b.value.values):
+                        if isinstance(k, ast.Constant) and isinstance(v, ast.Call) and isinstance(v.func, ast.Attribute) \
+                                and v.func.attr == "supported_file_formats" and isinstance(v.func.value, ast.Name):
+                            mapping.append((str(k.value), v.func.value.id))
+                        else:
+                            return []
+    if mapping is None:
+        return []
+    out = []
+    for t, cls in mapping:
+        if cls not in per_class:
+            return []
+        out.append((t, per_class[cls][0], per_class[cls][1]))
+    return out
+
+
+def emit(cli_specs, tool_tpls, gactions, gconstructions=(), goptions=None, gformats=None):
     L = [DECLS]
     L.append("def cliSpecs : List CliSpec := [")
     L.append(lspecs(cli_specs))
@@ -579,4 +646,13 @@ def emit(cli_specs, tool_tpls, gactions, gconstructions=()):
     L.append("/-- `constructions` of graph_args.py: the graph constructions of each graph type -/")
     L.append("def graphConstructions : List (String × List String) := {}\n".format(
         llist(gconstructions, lambda p: "({}, {})".format(lstr(p[0]), llist(p[1])))))
+    if goptions is not None:
+        L.append("/-- `options` of graph_args.py: the option keywords of each graph type -/")
+        L.append("def graphOptions : List (String × List String) := {}\n".format(
+            llist(goptions, lambda p: "({}, {})".format(lstr(p[0]), llist(p[1])))))
+    if gformats is not None:
+        L.append("/-- `formats` of graph_args.py (= `supported_graph_formats()` of graphs.py): graph type ->\n"
+                 "(file formats when pydot can be imported, file formats when it cannot) -/")
+        L.append("def graphFormats : List (String × List String × List String) := {}\n".format(
+            llist(gformats, lambda p: "({}, {}, {})".format(lstr(p[0]), llist(p[1]), llist(p[2])))))
     return "\n".join(L)
